@@ -144,13 +144,15 @@ func (sd *SpecAnalyser) AnalyseDefinitions() {
 	location := DifferenceLocation{Node: &Node{Field: "Spec Definitions"}}
 	for name1, sch := range sd.Definitions1 {
 		schema1 := sch
-		if _, ok := alreadyReferenced[name1]; !ok {
-			childLocation := location.AddNode(&Node{Field: name1})
-			if schema2, ok := sd.Definitions2[name1]; ok {
+		childLocation := location.AddNode(&Node{Field: name1})
+		if schema2, ok := sd.Definitions2[name1]; ok {
+			// a definition that is referenced has been compared where it is used
+			if _, ok := alreadyReferenced[name1]; !ok {
 				sd.compareSchema(childLocation, &schema1, &schema2)
-			} else {
-				sd.addDiffs(childLocation, []TypeDiff{{Change: DeletedDefinition}})
 			}
+		} else {
+			// like an added definition, a deleted one is reported whether it was referenced or not
+			sd.addDiffs(childLocation, []TypeDiff{{Change: DeletedDefinition}})
 		}
 	}
 	for name2 := range sd.Definitions2 {
